@@ -304,12 +304,9 @@ def universe(tier, sources, groups):
             tla_set(geo_nocov), tla_set(geo_srs)),
     ]
     names = sorted(groups)
-    pairs = [n for n in names if n.startswith('p')]
-    singles = [n for n in names if n.startswith('sk') or n.startswith('sw')]
     seqs = [(n,) for n in names if not n.startswith('sg')]
     seqs += [('sk03', 'sk01'), ('sk01', 'sk02'), ('p01', 'sk03'), ('sk03', 'p02'), ('sk12', 'sk06'), ('sw02', 'sk05'),
              ('sk04', 'sk03'), ('sk11', 'p01'), ('sw05', 'sw07'), ('sk03', 'sk09', 'sk12'), ('sk02', 'sk14', 'sk01')]
-    gseqs = [('s' + g,) for g in geo]
     mp = [
         '{<<l, XQ(g, srs, "png", d)>> : l \\in %s, g \\in %s, srs \\in {"%s", "%s"}, d \\in %s}' % (
             tla_set(seqs), tla_set(map_geos() if tier == 'thorough' else map_geos()[:8]), M, A, tla_set([set(), {'time', 'foo'}, {'elevation', 'dim_x', 'bar'}])),
@@ -320,7 +317,6 @@ def universe(tier, sources, groups):
         'rr \\in {"in", "out"}, d \\in {{}, {"time", "foo"}}}' % (
             tla_set([('s' + g,) for g in geo_nocov]), M),
     ]
-    del pairs, singles, gseqs
     # (sequences of sets: TLC's union of large enumerated sets is quadratic)
     return '=' + defs + '<<' + ',\n  '.join(call) + '>>', '=' + defs + '<<' + ',\n  '.join(mp) + '>>'
 
@@ -1434,8 +1430,7 @@ def run(ctx):
                 raise tlc.MachineryError('Source.tla with the three repairs: %r\n%s' % (r2, r2.out[-2000:]))
             ctx.add_tlc('Source/repaired-variant', r2)
         # vacuity guard: action coverage on a small universe
-        cc, cm = attack_universe('CombineChecksRes', sources, groups)
-        cc2, _ = attack_universe('BestSrsFromList', sources, groups)
+        _, cm = attack_universe('CombineChecksRes', sources, groups)
         small_call = ('=LET GeoIds == %s\n    %s\n    %s\nIN <<{<<s, XQ(g, "%s", "png", {"time"})>> : s \\in %s, g \\in %s}>>' % (
             tla_set([c.sid for c in sources if not c.lattice]), XQ, IQ, M,
             tla_set([c.sid for c in sources if c.lattice]), tla_set(small_geos() + tile_geos('quick')[::9])))
@@ -1447,7 +1442,6 @@ def run(ctx):
             if rc.coverage.get(a, (0, 0))[0] == 0:
                 raise tlc.MachineryError('vacuous model: action %s has coverage %r' % (a, rc.coverage.get(a)))
         ctx.add_tlc('Source/action-coverage', rc)
-        del cc, cc2
         # (R) spec -> code
         if os.path.exists(table):
             cases = load_table(table)
@@ -1485,6 +1479,13 @@ def run(ctx):
 
 
 def replay(ctx, data):
+    try:
+        return _replay(ctx, data)
+    finally:
+        shutil.rmtree(ctx.workdir, ignore_errors=True)
+
+
+def _replay(ctx, data):
     case = data.get('case') or {}
     oracle = Oracle()
     if 'case' in case:
